@@ -155,6 +155,11 @@ Commit == /\ txn # <<>> /\ nops < MaxOps
 Rollback == /\ txn # <<>> /\ nops < MaxOps
             /\ rows' = txn[1] /\ txn' = <<>> /\ UNCHANGED <<tomb, reop>>
             /\ Step([k |-> "rollback"], Res(TRUE, 0, txn[1]))
+\* the handle that holds the open transaction is dropped: everything it did since BEGIN is undone (C07); the history
+\* continues on a fresh handle of the same database
+DropHandle == /\ txn # <<>> /\ nops < MaxOps
+              /\ rows' = txn[1] /\ txn' = <<>> /\ UNCHANGED <<tomb, reop>>
+              /\ Step([k |-> "drophandle"], Res(TRUE, 0, txn[1]))
 Savepoint == /\ txn # <<>> /\ Len(txn) < 3 /\ nops < MaxOps
              /\ txn' = Append(txn, rows) /\ UNCHANGED <<rows, tomb, reop>>
              /\ Step([k |-> "savepoint", name |-> Len(txn)], Res(TRUE, 0, rows))
